@@ -168,6 +168,14 @@ theorem sources_idem_text {t : List Char} {d : Doc} (h : Reads t d) {s : Shape} 
     fromSources [t, t] = .ok s :=
   (fromSources_pair_reads h h s).2 (sources_idem (inferDoc_of_reads h hs))
 
+/-- **C08 on texts**: any number of copies of one source text give the shape of the text -/
+theorem sources_idem_k_text {t : List Char} {d : Doc} (h : Reads t d) {s : Shape} (hs : fromStr t = .ok s)
+    (k : Nat) : fromSources (List.replicate (k + 1) t) = .ok s := by
+  have := (fromSources_reads (List.replicate (k + 1) (t, d)) (by
+    intro p hp; rw [(List.mem_replicate.1 hp).2]; exact h) s).2 (by
+    simpa using sources_idem_k (inferDoc_of_reads h hs) k)
+  simpa using this
+
 /-- **C08 on texts**: merging with a text that reads as `null`, on either side, gives exactly the
 optional form -/
 theorem sources_null_text {t tn : List Char} {d : Doc} (h : Reads t d) (hn : Reads tn .null) {s : Shape}
